@@ -1353,6 +1353,9 @@ func (e *Engine) execFrom(fr *Frame, c *Ctx, b *ssa.BasicBlock, stops []*ssa.Bas
 			if e.Verbose {
 				e.stepsBy[fr.Fn]++
 			}
+			if DebugFlat {
+				curFn = fr.Fn.String()
+			}
 			if e.Verbose && e.Steps%20000 == 0 {
 				fmt.Printf("    [exec] steps %d forks %d merges %d terms %d heap %d depth %d in %s\n", e.Steps, e.Forks, e.Merges, len(termList), len(c.S.Heap), fr.Depth, fr.Fn.Name())
 			}
@@ -1814,11 +1817,23 @@ func (e *Engine) slice(c *Ctx, x *ssa.Slice) Value {
 		for _, a := range b.Alts {
 			lo := getI(x.Low, BV(64, 0))
 			hi := getI(x.High, a.Len)
-			if !lo.IsConst() {
-				unsup("symbolic slice low bound in %s", curSliceFn)
-			}
 			if a.Obj == -1 {
 				alts = append(alts, a)
+				continue
+			}
+			if !lo.IsConst() {
+				// symbolic low bound with a small interval: one alternative per value
+				if !lo.hasIv || lo.hi-lo.lo > 8 {
+					unsup("symbolic slice low bound without a small interval in %s", curSliceFn)
+				}
+				e.arr(c, a.Obj) // force the positional view once
+				for l := lo.lo; l <= lo.hi && int(l) <= a.Cap; l++ {
+					g := And(a.G, Eq(lo, BV(64, l)))
+					if g.IsFalse() {
+						continue
+					}
+					alts = append(alts, SliceAlt{g, a.Obj, a.Off + int(l), Sub(hi, BV(64, l)), a.Cap - int(l)})
+				}
 				continue
 			}
 			alts = append(alts, SliceAlt{a.G, a.Obj, a.Off + int(lo.val), Sub(hi, lo), a.Cap - int(lo.val)})
@@ -2419,6 +2434,7 @@ var distributable = map[string]bool{
 	"github.com/go-openapi/jsonpointer.Unescape": true, "github.com/go-openapi/jsonpointer.Escape": true,
 	"net/url.PathUnescape": true, "github.com/go-openapi/spec.MustCreateRef": true, "strconv.Atoi": true,
 	"strings.ToUpper": true, "strings.ToLower": true, "path.Ext": true,
+	"github.com/go-openapi/swag.ToJSONName": true, "github.com/go-openapi/swag.ToGoName": true, "path.Join": true,
 }
 
 func (e *Engine) distribute(h func(*Engine, *Frame, *Ctx, []Value, *ssa.CallCommon) (Value, bool), fr *Frame, c *Ctx, args []Value, cc *ssa.CallCommon) (Value, bool, bool) {
